@@ -215,6 +215,8 @@ pub enum Ev
 {
     /// a system became known: uid, definition, how it was created
     SysCreated{ uid: SysUid, shape: Shape, result: ResKind, pool: Option<u8>, template: Option<u8> },
+    /// (child, parent) pairs among the pool entities (fixed for the whole case)
+    Hierarchy(Vec<(u8, u8)>),
     TopBegin(u32),
     TopEnd(u32),
     SettleBegin(u32),
